@@ -111,12 +111,33 @@ func checkC06(w *World, r *Report) {
 	r.Check(ok, "CONV-AGREE", "validation:allowance", w.pos(place.Pos()), "every amount in the capped total is the same to-selling conversion", why)
 	// allocation at close: values added into AllocationMap on the fixed price path
 	allocOK, allocWhy, nAlloc := true, "", 0
-	for fn := range w.reachableFrom(bb) {
+	// the maps that end up in a MatchingInfo's AllocationMap: updated through the field, or built in a local variable
+	// (possibly filled by a walk callback) that is stored into / returned as that field
+	allocMaps := map[string]bool{}
+	for _, fn := range sortedFns(w.reachableFrom(bb)) {
+		fr := tm.Root(fn)
+		for _, b := range fn.Blocks {
+			for _, in := range b.Instrs {
+				st, ok := in.(*ssa.Store)
+				if !ok {
+					continue
+				}
+				if fa, ok := st.Addr.(*ssa.FieldAddr); ok && structOf(fa.X.Type()) != nil && structOf(fa.X.Type()).Field(fa.Field).Name() == "AllocationMap" {
+					for _, alt := range tm.OperandAt(fr, in, st.Val).Alts() {
+						if m := uncell(alt); m.Op == "makemap" {
+							allocMaps[m.Key()] = true
+						}
+					}
+				}
+			}
+		}
+	}
+	for _, fn := range sortedFns(w.reachableFrom(bb)) {
 		fr := tm.Root(fn)
 		for _, b := range fn.Blocks {
 			for _, in := range b.Instrs {
 				mu, isMU := in.(*ssa.MapUpdate)
-				if !isMU || loadedFieldName(mu.Map) != "AllocationMap" {
+				if !isMU || (loadedFieldName(mu.Map) != "AllocationMap" && !allocMaps[uncell(tm.Of(fr, mu.Map)).Key()]) {
 					continue
 				}
 				v := tm.OperandAt(fr, in, mu.Value)
@@ -133,6 +154,44 @@ func checkC06(w *World, r *Report) {
 				}
 			}
 		}
+	}
+	// the conversions switch on the denomination they are given: every call passes the auction's paying denomination
+	// (with another denomination the same bid converts by the other branch — a different quantity at price ≠ 1)
+	{
+		conv := map[*ssa.Function]bool{}
+		for _, f := range bidConverters(w) {
+			conv[f] = true
+		}
+		var badDenom []string
+		nConv := 0
+		for _, site := range tm.sitesWhere(w.apiRoots(), func(fr *Frame, in ssa.Instruction) bool {
+			c, ok := in.(ssa.CallInstruction)
+			if !ok {
+				return false
+			}
+			callee := w.calleeBody(c.Common())
+			return callee != nil && conv[callee] && pkgOf(fr.Fn) != nil && pkgOf(fr.Fn).Path() == keeperPath
+		}) {
+			c := site.In.(ssa.CallInstruction).Common()
+			if len(c.Args) < 2 {
+				continue
+			}
+			nConv++
+			dt := tm.OperandAt(site.Fr, site.In, c.Args[1])
+			okD := true
+			for _, alt := range dt.Alts() {
+				if fieldBase(alt, "PayingCoinDenom") == nil {
+					okD = false
+				}
+			}
+			if !okD {
+				badDenom = append(badDenom, fmt.Sprintf("%s converts with %s", w.instrPos(site.In), dt.String()))
+			}
+		}
+		sort.Strings(badDenom)
+		r.Check(len(badDenom) == 0 && nConv > 0, "CONV-AGREE", "conversion:denomination", keeperPath,
+			fmt.Sprintf("every call of the bid's amount conversions passes the auction's paying denomination (%d call sites in context)", nConv),
+			strings.Join(dedupe(badDenom), "; ")+": the quantity compared, subtracted or allocated for one bid is computed by different branches of the conversion at different places")
 	}
 	r.Check(allocOK && nAlloc > 0, "CONV-AGREE", "close:allocation", w.pos(bb.Pos()),
 		"at close each stored bid allocates its to-selling conversion to its own bidder (the same conversion as at validation and subtraction)", allocWhy)
